@@ -187,7 +187,8 @@ def check_property(prop: str, tier: str, seed: int, level: str = "proof") -> int
             elif st in ("error", "disagree"):
                 errors.append(f"{r['oid']} {inst}: {st} {r.get('error', '')[-400:]}")
             else:
-                undecided.append({"unit": unit, "inst": inst, "why": f"{st}: {r['oid']}", "tag": r["tag"]})
+                # unknown / timeout: a native counter-example search may still decide it
+                violations.append({"unit": unit, "inst": inst, "r": r, "spec_index": _spec_index(specs, res), "unknown": True})
 
     # ---- bounded native stand-ins (runtime contracts on the real functions) ------------
     native = list(getattr(mod, "NATIVE", []))
@@ -230,7 +231,7 @@ def check_property(prop: str, tier: str, seed: int, level: str = "proof") -> int
     n_viol = 0
     grouped = {}
     for v in violations:
-        grouped.setdefault(v["r"]["oid"], []).append(v)
+        grouped.setdefault(v["r"]["oid"].split("@")[0], []).append(v)
     for oid, vs in grouped.items():
         spec = specs[vs[0]["spec_index"]]
         failing = None
@@ -249,9 +250,15 @@ def check_property(prop: str, tier: str, seed: int, level: str = "proof") -> int
                 chosen = v
                 break
         r = chosen["r"]
-        if r["tag"] != "property" and failing is None:
-            undecided.append({"unit": chosen["unit"], "inst": chosen["inst"], "why": f"auxiliary clause refuted: {oid}", "tag": "aux"})
-            continue
+        if failing is None:
+            refuted = [v for v in vs if not v.get("unknown")]
+            if not refuted or r["tag"] != "property":
+                for v in vs:
+                    why = "unknown" if v.get("unknown") else "auxiliary clause refuted"
+                    undecided.append({"unit": v["unit"], "inst": v["inst"], "why": f"{why}: {oid}", "tag": r["tag"]})
+                continue
+            chosen = refuted[0]
+            r = chosen["r"]
         n_viol += 1
         payload = {"property": prop, "obligation": oid, "instance": chosen["inst"],
                    "all_refuted_instances": [v["inst"] for v in vs], "path": r["path"], "goal": r["goal"],
@@ -262,7 +269,11 @@ def check_property(prop: str, tier: str, seed: int, level: str = "proof") -> int
         suffix = "" if failing else " no-failing-input-found"
         lines.append(f"VIOLATION property={prop} replay={path}{suffix}")
         exit_code = 1
+    seen_native = set()
     for name, f in native_fail:
+        if (name, f.get("key", "")) in seen_native:
+            continue
+        seen_native.add((name, f.get("key", "")))
         n_viol += 1
         payload = {"property": prop, "obligation": f"{prop}/bounded/{name}", "native_failure": f,
                    "how_to_replay": f"./check {prop} --replay <this file>"}
